@@ -593,3 +593,5 @@ m("x7-bitmap-closure-arms-swapped", "C09,C05,C16", AB, """        for n in first
                     self.map[n >> 6].fetch_and(!(1 << (n & 63)), Ordering::SeqCst);
                 }
             });""", "R9.6.polarity")
+m("x7-endian-eq-ordering-is-le", "C20", EN, "                self.0 == $old_type::$to_new(*other)", "                self.to_native().cmp(other).is_le()", "R20.1.eq")
+m("x7-endian-eq-ordering-wrong-side", "C20", EN, "                self.0 == $old_type::$to_new(*other)", "                self.0.cmp(other).is_eq()", "R20.1.eq")
